@@ -16,8 +16,8 @@ Print Assumptions C04_uni_read_in_bounds.
 (* After update, for every class z and every (method, virtual parameter) pair that accepts objects of class z
    (applies: z is among the covariant classes of the parameter's class), the pair's cell lies inside z's v-table,
    and no other pair applicable to z shares it — whatever the shape of the inheritance lattice. *)
-Theorem C04_cells : forall R C,
-  wf_registry R -> compile R = Ok C ->
+Theorem C04_cells : forall R stale C,
+  wf_registry R -> compile_with stale R = Ok C ->
   forall mi p mi' p' z,
     applies (o_lat C) (o_meths C) mi p z -> applies (o_lat C) (o_meths C) mi' p' z ->
     (c_first C z <= c_slot C mi p < c_first C z + c_vlen C z) /\
@@ -32,8 +32,8 @@ Proof. exact assign_slots_ok. Qed.
 Print Assumptions C04_slot_allocation.
 
 (* Every address a legal call reads lies inside the policy's dispatch data as sized by that update. *)
-Theorem C04_legal_call_reads_in_bounds : forall R C mi m cs,
-  wf_registry R -> compile R = Ok C -> nth_error (r_methods R) mi = Some m ->
+Theorem C04_legal_call_reads_in_bounds : forall R stale C mi m cs,
+  wf_registry R -> compile_with stale R = Ok C -> nth_error (r_methods R) mi = Some m ->
   Forall (fun c => c < ncls (o_lat C)) cs -> legal R m (map (key (o_lat C)) cs) ->
   let cm := nth mi (o_meths C) (mk_cmeth [] [] [] []) in
   let ss := nth mi (o_ss C) [] in
